@@ -277,6 +277,7 @@ class FakeSnowflakeCursor:
         if set_database := transformed.args.get("set_database"):
             self._conn.database = set_database
             self._conn.database_set = True
+            result_sql = SQL_SUCCESS
 
         elif set_schema := transformed.args.get("set_schema"):
             self._conn.schema = set_schema
@@ -284,6 +285,11 @@ class FakeSnowflakeCursor:
             if set_schema_database := transformed.args.get("set_schema_database"):
                 self._conn.database = set_schema_database
                 self._conn.database_set = True
+            result_sql = SQL_SUCCESS
+
+        elif isinstance(transformed, (exp.Transaction, exp.Commit, exp.Rollback, exp.TruncateTable)):
+            # like snowflake return the status row, which also means there's a result to describe
+            result_sql = SQL_SUCCESS
 
         elif create_db_name := transformed.args.get("create_db_name"):
             # we created a new database, so create the info schema extensions
